@@ -103,6 +103,8 @@ pub const POISON_KINDS: &[&str] = &[
     "discard_question",
     "discard_tc",
     "discard_rcode",
+    "discard_rcode_reserved",
+    "discard_rcode_other",
 ];
 
 #[derive(Clone, Debug)]
@@ -372,6 +374,17 @@ impl UniverseNet {
             .questions
             .first()
             .map_or_else(|| ".".to_string(), |q| q.name.to_dotted_string());
+        // faults that build names from the question name: not when the name is
+        // already close to the 255-octet limit
+        if qname.len() > 200
+            && matches!(
+                kind,
+                "lame_same" | "lame_up" | "referral_unresolvable" | "referral_self" | "referral_deeper_fake"
+                    | "cname_loop_inline" | "cname_to_loop" | "cname_stream" | "question_mismatch" | "discard_question"
+            )
+        {
+            return (resp, None, 0, true);
+        }
         let clear = |m: &mut Message| {
             m.answers.clear();
             m.authority.clear();
@@ -416,6 +429,8 @@ impl UniverseNet {
             "rcode_formerr" => resp.header.rcode = Rcode::FormatError,
             "rcode_notimp" => resp.header.rcode = Rcode::NotImplemented,
             "rcode_refused" | "discard_rcode" => resp.header.rcode = Rcode::Refused,
+            "discard_rcode_reserved" => resp.header.rcode = Rcode::from(6 + (h % 10) as u8),
+            "discard_rcode_other" => resp.header.rcode = Rcode::from([1u8, 2, 4][usize::try_from(h % 3).unwrap()]),
             "rcode_reserved" => resp.header.rcode = Rcode::from(11),
             "empty" => clear(&mut resp),
             "lame_same" | "lame_up" => {
@@ -526,6 +541,9 @@ impl UniverseNet {
             .first()
             .map_or_else(|| ".".to_string(), |q| q.name.to_dotted_string());
         let qtype = query.questions.first().map(|q| q.qtype);
+        if qname.len() > 200 {
+            return resp;
+        }
         let victim = {
             // a real name elsewhere in the universe
             let names: Vec<String> = self
@@ -706,6 +724,22 @@ impl UniverseNet {
             self.exchanges.push(ex);
             return None;
         };
+        // names that do not survive the dotted-text form the harness works in
+        // (a label holding a dot, learnt from a corrupted reply): refuse plainly
+        let odd_name = query.questions.first().is_some_and(|q| {
+            DomainName::from_dotted_string(&q.name.to_dotted_string()).as_ref() != Some(&q.name)
+        });
+        if odd_name {
+            world::with(|w| w.bump("probe.question_name_not_representable_as_text"));
+            let mut resp = query.make_response();
+            resp.header.rcode = Rcode::Refused;
+            let bytes = resp.to_octets().map(|b| b.to_vec()).unwrap_or_default();
+            ex.reply = Some(resp);
+            ex.reply_len = bytes.len();
+            ex.replied = true;
+            self.exchanges.push(ex);
+            return Some((bytes, 0, "none".to_string()));
+        }
         let correct = if is_forwarder {
             Some(self.forwarder_reply(&query))
         } else {
@@ -840,7 +874,12 @@ impl Internet for UniverseNet {
                 out.then = TcpThen::Reset;
             }
             "tcp_early_eof" => {
-                out.cut_at = Some(out.data.len().saturating_sub(1).max(1));
+                // anywhere: inside the prefix, right after it, after one or two
+                // body bytes, in the middle, one byte short
+                let n = out.data.len();
+                let h = world::with(|w| w.derived("upstream.tcp_cut", &format!("{to}")));
+                let cut = [1usize, 2, 3, 4, 5, n / 2, n.saturating_sub(1)][usize::try_from(h % 7).unwrap()];
+                out.cut_at = Some(cut.clamp(1, n.saturating_sub(1).max(1)));
                 out.then = TcpThen::Close;
             }
             "tcp_bad_len_short" => {
